@@ -420,3 +420,132 @@ def run_bit_layout(ctx, rep):
         if not ok:
             rep.violation('R18.6', vkey('R18.6', name, 'bit-layout', ''), fn.loc(fn.span),
                           'DOS date/time encoding shifts %s differ from the on-disk layout %s' % (shifts, spec))
+
+
+# ---------------------------------------------------------------------------------------------------------------
+# R18.7 every value packed into a DOS date / time word fits the bits it is given (no carry into the neighbouring field)
+
+CTOR_OF = {'fatfs::time::Time::encode': 'fatfs::time::Time::new', 'fatfs::time::Date::encode': 'fatfs::time::Date::new'}
+HI_RES_MAX = 199  # FAT specification: DIR_CrtTimeTenth counts 10 ms units, valid range 0..199
+
+
+def ctor_invariants(facts, ctor_name):
+    """{(adt path, field): interval} that the checked constructor establishes: the ranges of its parameters at the point
+    where the value is built (after its asserts), read off the interval analysis of the constructor"""
+    from intervals import Analysis, FnCtx
+    C = facts.fns.get(ctor_name)
+    if C is None:
+        return None
+    an = Analysis(facts, C, FnCtx({}, {}, set()), {}, 0)
+    out = {}
+    for bi in C.reachable():
+        st0 = an.in_state.get(bi)
+        if st0 is None:
+            continue
+        for s in C.blocks[bi]['stmts']:
+            if s['k'] == 'assign' and s['rv']['k'] == 'agg' and s['rv'].get('ak') == 'adt' and s['rv'].get('fields'):
+                st, _ = an.state_before_term(bi)
+                for fname, o in zip(s['rv']['fields'], s['rv']['ops']):
+                    iv = an.read_operand(st, o)
+                    if iv is not None:
+                        out[(s['rv']['adt'], fname)] = iv
+    return out
+
+
+def _interval_of_local_at_end(an, fn, local):
+    """interval of a local in the state before the terminator of the last block that defines it"""
+    from model import place_key
+    best = None
+    for bi in fn.reachable():
+        if any(s['k'] == 'assign' and s['lhs']['l'] == local and not s['lhs']['p'] for s in fn.blocks[bi]['stmts']):
+            st, _ = an.state_before_term(bi)
+            if st is not None:
+                v = st.get((local, ()))
+                best = v if best is None or v is None else (min(best[0], v[0]), max(best[1], v[1]))
+                if v is None:
+                    return None
+    return best
+
+
+def run_field_ranges(ctx, rep):
+    from intervals import Analysis, FnCtx
+    facts = ctx.facts
+    for enc, ctor in CTOR_OF.items():
+        E = facts.fns.get(enc)
+        inv = ctor_invariants(facts, ctor)
+        if E is None or inv is None:
+            rep.machinery('ANCHOR-MISSING %s / %s' % (enc, ctor))
+            continue
+        an = Analysis(facts, E, FnCtx({}, dict(inv), set()), {}, 0)
+        defs = _single_defs(E)
+        # leaves of the BitOr tree that builds the 16-bit word
+        ors = [(bi, s) for bi in E.reachable() for s in E.blocks[bi]['stmts']
+               if s['k'] == 'assign' and s['rv']['k'] == 'binop' and s['rv']['op'] == 'BitOr']
+        used_as_operand = set()
+        for _, s in ors:
+            for o in (s['rv']['a'], s['rv']['b']):
+                p = op_place(o)
+                if p is not None and not p['p']:
+                    used_as_operand.add(p['l'])
+        roots = [s for _, s in ors if s['lhs']['l'] not in used_as_operand and not s['lhs']['p']]
+        probs = []
+        leaves = []
+
+        def walk(o):
+            p = op_place(o)
+            if p is None or p['p']:
+                return
+            rv = defs.get(p['l'])
+            if rv is not None and rv['k'] == 'binop' and rv['op'] == 'BitOr':
+                walk(rv['a'])
+                walk(rv['b'])
+                return
+            if rv is not None and rv['k'] == 'use' and op_place(rv['a']) is not None and not op_place(rv['a'])['p']:
+                walk(rv['a'])
+                return
+            if rv is not None and rv['k'] == 'binop' and rv['op'].startswith('Shl') and op_const(rv['b']) is not None:
+                q = op_place(rv['a'])
+                iv = _interval_of_local_at_end(an, E, q['l']) if q is not None and not q['p'] else None
+                leaves.append((op_const(rv['b'])['val'], iv))
+                return
+            leaves.append((0, _interval_of_local_at_end(an, E, p['l'])))
+
+        for r in roots:
+            walk(r['rv']['a'])
+            walk(r['rv']['b'])
+        leaves.sort(key=lambda x: x[0])
+        for i, (sh, iv) in enumerate(leaves):
+            top = leaves[i + 1][0] if i + 1 < len(leaves) else 16
+            room = (1 << (top - sh)) - 1
+            if iv is None or iv[0] < 0 or iv[1] > room:
+                probs.append('the value placed at bit %d ranges over %s but only %d bits (0..%d) are free below the next field' %
+                             (sh, iv, top - sh, room))
+        if len(leaves) < 3:
+            probs.append('the packed word was not recognised as an OR of three bit fields')
+        # narrowing casts (the 10 ms byte)
+        for bi in E.reachable():
+            st0 = an.in_state.get(bi)
+            for si, s in enumerate(E.blocks[bi]['stmts']):
+                if s['k'] == 'assign' and s['rv']['k'] == 'cast':
+                    src_t, dst_t = E.ty(s['rv']['from']) if 'from' in s['rv'] else None, E.ty(s['rv']['to']) if 'to' in s['rv'] else None
+                    if not src_t or not dst_t or src_t.get('k') != 'int' or dst_t.get('k') != 'int' or dst_t['bits'] >= src_t['bits']:
+                        continue
+                    q = op_place(s['rv']['a'])
+                    iv = _interval_of_local_at_end(an, E, q['l']) if q is not None and not q['p'] else None
+                    if iv is None or iv[0] < 0 or iv[1] > HI_RES_MAX:
+                        probs.append('the sub-second byte ranges over %s; the on-disk field counts 10 ms units within two seconds, '
+                                     '0..%d (a larger value decodes as a later second)' % (iv, HI_RES_MAX))
+        rep.oblige('R18.7', enc, ok=not probs, nontrivial=True,
+                   sample={'fn': enc, 'fields': [(sh, str(iv)) for sh, iv in leaves],
+                           'invariant_from': ctor, 'invariant': {k[1]: str(v) for k, v in inv.items()}})
+        if probs:
+            rep.violation('R18.7', vkey('R18.7', enc, 'field-range', ''), E.loc(E.span),
+                          'under the ranges that %s establishes, %s' % (ctor.rsplit('::', 2)[-2] + '::new', '; '.join(probs)))
+
+
+_run_18 = run
+
+
+def run(ctx, rep):
+    _run_18(ctx, rep)
+    run_field_ranges(ctx, rep)
